@@ -36,6 +36,11 @@ METRICS = dict(center_distance_thresholds=[[1.0, 1.0], [0.4, 2.0]], plane_distan
 ALL_THR = {"cd": [1.0, 0.4, 2.0, 3.0, 1.5], "pd": [2.0, 1.0, 0.5], "iou": [0.3, 0.2]}
 
 
+FAR_EGOS = [(89412.25, 42356.5, 0.6), (-51234.5, 77001.75, -2.2), (41000.0, -93000.0, 3.0)]
+TWIN_DX = [0.0, 0.135, 0.3, 0.6, 1.3]
+TWIN_DY = [0.0, 0.2, 0.334, 0.8]
+
+
 def worker_init():
     _SEED[0] = int(os.environ.get("VERIF_SEED", "0") or 0)
 
@@ -60,6 +65,9 @@ def units(tier, seed):
     # map-frame objects whose coordinates are all integers (hand-made / rounded inputs) against the float ego-frame rendering
     for e in egos:
         u.append(dict(task="intpos", ego=e))
+    # near-twin ground truths (same label, heading, height; 0.1 .. 1.3 m apart) with the ego at map-scale coordinates
+    for fe in range(len(FAR_EGOS)):
+        u.append(dict(task="twins", far_ego=fe))
     return u
 
 
@@ -69,6 +77,25 @@ def bounds(tier, seed):
 
 
 def run_unit(unit, acc):
+    if unit["task"] == "twins":
+        for lab, size in (("PEDESTRIAN", [0.6, 0.6, 1.7]), ("CAR", [2.0, 4.0, 1.5])):
+            for dx in TWIN_DX:
+                for dy in TWIN_DY:
+                    if dx == 0.0 and dy == 0.0:
+                        continue
+                    for near in ("A", "B", "AB", "none"):
+                        for crit in ("box_per_label", "ring"):
+                            a = dict(x=6.0, y=2.0, z=0.9, yaw=0.3, size=size, label=lab, uuid="gA", pts=10, vel=[1.0, 0.0, 0.0])
+                            b = dict(a, x=6.0 + dx, y=2.0 + dy, uuid="gB")
+                            ests = []
+                            if "A" in near:
+                                ests.append(dict(a, x=a["x"] + 0.04, y=a["y"] + 0.02, uuid="eA", score=0.9))
+                            if "B" in near:
+                                ests.append(dict(b, x=b["x"] + 0.03, y=b["y"] - 0.02, uuid="eB", score=0.8))
+                            check_case(dict(task="detection", ego_index=0, ego_override=list(FAR_EGOS[unit["far_ego"]]), policy="DEFAULT", mgr="wide", crit=crit,
+                                            ests=ests, gts=[a, b, dict(x=8.0, y=-2.0, z=0.9, yaw=1.0, size=[2.0, 4.0, 1.5], label="CAR", uuid="gC", pts=10,
+                                                                       vel=[1.0, 0.0, 0.0])], seed=_SEED[0], loose=True), acc)
+        return
     if unit["task"] == "intpos":
         ego = G.ego_menu(_SEED[0])[unit["ego"]]
         cx, cy, _ = geom.ego_to_map(11.0, 0.0, 0.0, ego)
@@ -346,7 +373,7 @@ def check_case(case, acc):
             acc.sample(case)
         return
     tracking = case["task"] == "tracking"
-    base_ego = G.ego_menu(case.get("seed", 0))[case["ego_index"]]
+    base_ego = tuple(case["ego_override"]) if case.get("ego_override") else G.ego_menu(case.get("seed", 0))[case["ego_index"]]
     nframes = 3 if tracking else 1
     ov = dict(MGR[case["mgr"]][0], matching_label_policy=case["policy"], **METRICS)
     runs = {}
@@ -392,6 +419,9 @@ def check_case(case, acc):
     if acc.cases % 397 == 1:
         acc.sample(case)
     for k, (x, y) in enumerate(zip(a, b)):
+        if case.get("loose"):   # coordinates ~1e5: polygon scores carry ~1e-7 noise; decisions and metrics are compared
+            x, y = dict(x), dict(y)
+            x.pop("scores", None), y.pop("scores", None)
         d = _diff(x, y)
         if d:
             what = "scene result" if k == len(a) - 1 else "frame %d" % k
